@@ -36,7 +36,7 @@ fn meta() -> Meta {
     Meta {
         id: "C10",
         level: "exploration",
-        rule: "(i) every target string of <= 5 (quick) / 6 (thorough) tokens over {'{', '}', ',', a, e-acute, _Default, W} through Log::enabled and Log::log, with and without an additional writer; (ii) 6 message shapes x absent optional fields x key-values through 13 output kinds (the syslog writer over datagram, stream, UDP and TCP among them); (iii) specification strings: special inputs (the token sweep is C17's); (iv) basename {app, empty, a-umlaut-pp, a.b} x discriminant {none, d, e-acute} x suffix {log, none, l.g, a multi-byte one, restart-0000} x start time on/off x naming (6 schemes + custom formats of 4/10/20/30 characters and three with multi-byte characters, with and without current infix) x append on/off through start-W-R-W-restart-W-shutdown; (v) every single near-miss file name of C14's alphabet x naming x cleanup; (vi) recursive logging (1 and 2 levels deep) against 13 output kinds with and without text filter; (vii) write-mode parameters at their extremes; distinct_nontrivial = distinct cases whose input contains a brace, a multi-byte character, an empty part or a pre-existing file; (viii) recursive logging (a Display that logs) racing with set_new_spec under the controlled scheduler, all schedules with <= 2 / 3 preemptions (a deadlock among threads blocked for real is a verdict); and four rotating records followed by shutdown() with the background cleanup thread under the controlled scheduler; (v) also one directory with all near-miss names at once; (vii) also rotation parameters at their extremes, hostile TOML texts, and a broken stdout / stderr error channel with panic_if_error_channel_is_broken(false) in a child process",
+        rule: "(i) every target string of <= 5 (quick) / 6 (thorough) tokens over {'{', '}', ',', a, e-acute, _Default, W} through Log::enabled and Log::log, with and without an additional writer; (ii) 6 message shapes x absent optional fields x key-values through 13 output kinds (the syslog writer over datagram, stream, UDP and TCP among them); (iii) specification strings: special inputs (the token sweep is C17's); (iv) basename {app, empty, a-umlaut-pp, a.b} x discriminant {none, d, e-acute} x suffix {log, none, l.g, a multi-byte one, restart-0000} x start time on/off x naming (6 schemes + custom formats of 4/10/20/30 characters and three with multi-byte characters, with and without current infix) x append on/off through start-W-R-W-restart-W-shutdown; (v) every single near-miss file name of C14's alphabet x naming x cleanup; (vi) recursive logging (1 and 2 levels deep) against 13 output kinds with and without text filter; (vii) write-mode parameters at their extremes; distinct_nontrivial = distinct cases whose input contains a brace, a multi-byte character, an empty part or a pre-existing file; (viii) recursive logging (a Display that logs) racing with set_new_spec under the controlled scheduler, all schedules with <= 2 / 3 preemptions (a deadlock among threads blocked for real is a verdict); and four rotating records followed by shutdown() with the background cleanup thread under the controlled scheduler; (v) also one directory with all near-miss names at once; (vii) also rotation parameters at their extremes, hostile TOML texts, and a broken stdout / stderr error channel with panic_if_error_channel_is_broken(false) in a child process; an error channel file that cannot be opened (its path is a directory / its directory does not exist) with something to report, in a child process with an 8 s watchdog",
         assumptions: vec![
             "documented panics are kept out of the alphabets (FileSpec::try_from on a path without file name, invalid strftime format strings, use_utc after local time was used)".into(),
             "a hang is a case that does not finish within 10 s".into(),
@@ -512,11 +512,34 @@ fn toml_case(t: &str) -> Result<(), (String, String)> {
 /// (the setting is taken from the first logger that is built in a process: a fresh child process)
 fn errchan_case(i: usize) -> Result<(), (String, String)> {
     let exe = std::env::current_exe().map_err(|e| ("machinery".to_string(), e.to_string()))?;
-    let o = std::process::Command::new(exe).args(["child", "c10errchan", &i.to_string()]).output().map_err(|e| ("machinery".to_string(), e.to_string()))?;
-    if o.status.success() {
-        Ok(())
-    } else {
-        Err(("panic".to_string(), format!("child process: {} {}", String::from_utf8_lossy(&o.stdout).chars().take(300).collect::<String>(), String::from_utf8_lossy(&o.stderr).chars().rev().take(400).collect::<String>().chars().rev().collect::<String>())))
+    let sc = Scratch::new("c10ec");
+    let (so, se) = (sc.path().join("out.txt"), sc.path().join("err.txt"));
+    let mut ch = std::process::Command::new(exe)
+        .args(["child", "c10errchan", &i.to_string()])
+        .arg(sc.path())
+        .stdout(std::fs::File::create(&so).map_err(|e| ("machinery".to_string(), e.to_string()))?)
+        .stderr(std::fs::File::create(&se).map_err(|e| ("machinery".to_string(), e.to_string()))?)
+        .spawn()
+        .map_err(|e| ("machinery".to_string(), e.to_string()))?;
+    let t0 = std::time::Instant::now();
+    let status = loop {
+        match ch.try_wait() {
+            Ok(Some(st)) => break Some(st),
+            Ok(None) if t0.elapsed() > std::time::Duration::from_secs(8) => {
+                ch.kill().ok();
+                ch.wait().ok();
+                break None;
+            }
+            Ok(None) => std::thread::sleep(std::time::Duration::from_millis(5)),
+            Err(e) => return Err(("machinery".to_string(), e.to_string())),
+        }
+    };
+    let out = std::fs::read_to_string(&so).unwrap_or_default();
+    let err = std::fs::read_to_string(&se).unwrap_or_default();
+    match status {
+        None => Err(("hang".to_string(), "the child process did not come back from two log calls within 8 s (killed)".to_string())),
+        Some(st) if st.success() => Ok(()),
+        Some(_) => Err(("panic".to_string(), format!("child process: {} {}", out.chars().take(300).collect::<String>(), err.chars().rev().take(400).collect::<String>().chars().rev().collect::<String>()))),
     }
 }
 
@@ -537,6 +560,9 @@ pub fn child_errchan(args: &[String]) -> i32 {
 }
 
 fn errchan_in_process(i: usize) -> Result<(), (String, String)> {
+    if i >= 2 {
+        return errchan_file_in_process(i);
+    }
     let (chan, fd) = if i % 2 == 0 { (ErrorChannel::StdOut, 1) } else { (ErrorChannel::StdErr, 2) };
     let rec = Recorder::new(LevelFilter::Trace);
     let (logger, handle) = Logger::with(LogSpecification::trace())
@@ -559,6 +585,32 @@ fn errchan_in_process(i: usize) -> Result<(), (String, String)> {
         Ok(()) => Ok(()),
         Err(p) => std::panic::resume_unwind(p),
     }
+}
+
+/// The error channel is a file that cannot be opened (2: its path is a directory, 3: its directory
+/// does not exist), and there is something to report, twice: the log calls come back (the
+/// messages go to stderr instead).
+fn errchan_file_in_process(i: usize) -> Result<(), (String, String)> {
+    let dir = std::env::args().nth(4).map(std::path::PathBuf::from).unwrap_or_else(std::env::temp_dir);
+    let path = if i == 2 {
+        let p = dir.join("errors.log");
+        std::fs::create_dir_all(&p).ok();
+        p
+    } else {
+        dir.join("no-such-directory").join("errors.log")
+    };
+    let rec = Recorder::new(LevelFilter::Trace);
+    let (logger, handle) = Logger::with(LogSpecification::trace())
+        .log_to_writer(Box::new(rec))
+        .error_channel(ErrorChannel::File(path))
+        .build()
+        .map_err(|e| ("build".to_string(), e.to_string()))?;
+    lg::log_to(&*logger, Level::Error, "{NoSuchWriter,_Default}", "to an unknown writer");
+    lg::log_to(&*logger, Level::Error, "{NoSuchWriter}", "to an unknown writer only");
+    lg::log_to(&*logger, Level::Info, "app", "an ordinary record");
+    drop(handle);
+    drop(logger);
+    Ok(())
 }
 
 /// Rotation parameters at their extremes: W R W W restart W shutdown must come back (a
@@ -989,7 +1041,7 @@ fn run_unit(tier: &str, unit: usize, out: &mut Out) {
         let r = guard("spec-toml", &format!("toml text #{i}"), move || toml_case(&t));
         record(out, r, json!({"kind": "toml", "i": i}), Some(format!("t{i}")));
     }
-    for i in 0..2 {
+    for i in 0..4 {
         let r = guard("error-channel-broken", &format!("error channel case {i}"), move || errchan_case(i));
         record(out, r, json!({"kind": "errchan", "i": i}), Some(format!("e{i}")));
     }
